@@ -85,7 +85,7 @@ THEOREMS = [
     "PP.Diagram.links_resolve_partial",
     "PP.Diagram.root_first_partial",
     "PP.Diagram.no_empty_placeholder_partial",
-    "PP.Diagram.no_empty_placeholder_partial'",
+    "PP.Diagram.no_empty_placeholder_output_partial",
     "PP.Diagram.conv_HS",
     "PP.Diagram.conv_step",
 ]
